@@ -102,20 +102,23 @@ class Work:
         if paths:
             subprocess.check_call([tool] + paths, env=env_base(), stdout=subprocess.DEVNULL)
 
-    def build_test(self, pkg, race=False):
-        key = (pkg, race)
+    def build_test(self, pkg, race=False, goarch=None):
+        key = (pkg, race, goarch)
         if key in self.bins:
             return self.bins[key]
-        out = os.path.join(self.dir, "bin-%s%s.test" % (pkg.replace("/", "_"), "-race" if race else ""))
+        out = os.path.join(self.dir, "bin-%s%s%s.test" % (pkg.replace("/", "_"), "-race" if race else "", "-" + goarch if goarch else ""))
         cmd = ["go", "test", "-trimpath", "-c", "-o", out]
         if race:
             cmd.append("-race")
         cmd.append("./" + pkg)
         t0 = time.time()
-        p = subprocess.run(cmd, cwd=self.h, env=env_base(), stdout=subprocess.PIPE, stderr=subprocess.STDOUT, text=True)
+        e = env_base()
+        if goarch:
+            e["GOARCH"] = goarch
+        p = subprocess.run(cmd, cwd=self.h, env=e, stdout=subprocess.PIPE, stderr=subprocess.STDOUT, text=True)
         if p.returncode != 0 or not os.path.exists(out):
             raise BuildError("build of %s failed:\n%s" % (pkg, p.stdout[-4000:]))
-        log("  built %s%s in %.1fs" % (pkg, " (-race)" if race else "", time.time() - t0))
+        log("  built %s%s%s in %.1fs" % (pkg, " (-race)" if race else "", " (GOARCH=%s)" % goarch if goarch else "", time.time() - t0))
         self.bins[key] = out
         return out
 
@@ -207,6 +210,25 @@ def race_in_repo(text):
     return None
 
 
+WRAPPERS = {
+    # a host without a time-zone database (minimal container images): private mount namespace with an
+    # empty tmpfs over /usr/share/zoneinfo; ZONEINFO is cleared by the caller's environment
+    "no-tzdata": ["unshare", "-rm", "sh", "-c", 'mount -t tmpfs none /usr/share/zoneinfo && exec "$0" "$@"'],
+}
+_wrap_ok = {}
+
+
+def wrapper(name):
+    if name not in _wrap_ok:
+        w = WRAPPERS[name]
+        try:
+            p = subprocess.run(w + ["true"], stdout=subprocess.PIPE, stderr=subprocess.STDOUT, timeout=20)
+            _wrap_ok[name] = p.returncode == 0
+        except Exception:
+            _wrap_ok[name] = False
+    return WRAPPERS[name] if _wrap_ok[name] else None
+
+
 class Shard:
     def __init__(self, leg, idx, proc, paths, t0, timeout, logf):
         self.leg, self.idx, self.proc, self.paths = leg, idx, proc, paths
@@ -225,7 +247,13 @@ def run_leg(work, pid, leg, leg_index, tier, seed, replay=None, replay_dir=None)
     if leg.app:
         for a in leg.app:
             work.build_app(a)
-    binp = work.build_test(leg.pkg, race=leg.race)
+    binp = work.build_test(leg.pkg, race=leg.race, goarch=leg.goarch)
+    wrap = []
+    if leg.wrap:
+        wrap = wrapper(leg.wrap)
+        if wrap is None:
+            log("  leg %s skipped: wrapper %r is not available in this environment" % (leg.name, leg.wrap))
+            return {"stats": [], "violations": [], "inconclusive": [], "wall": 0.0, "skipped": "wrapper %s unavailable" % leg.wrap}
     running = []
     res = {"stats": [], "violations": [], "inconclusive": [], "wall": 0.0}
     t_start = time.time()
@@ -250,7 +278,9 @@ def run_leg(work, pid, leg, leg_index, tier, seed, replay=None, replay_dir=None)
             e["GORACE"] = "halt_on_error=1 exitcode=66"
         e.update(leg.env)
         e.update((leg.env_quick if quick else leg.env_thorough))
-        args = [binp, "-test.timeout", "%ds" % timeout]
+        if leg.shard_env:
+            e.update(leg.shard_env[s % len(leg.shard_env)])
+        args = wrap + [binp, "-test.timeout", "%ds" % timeout]
         if replay or replay_dir:
             args += ["-test.run", "^TestReplay$", "-test.v"]
             if replay:
@@ -524,7 +554,11 @@ def check_property(pid, tier, seed):
                 violations += r["violations"]
                 inconclusive += r["inconclusive"]
                 m = merge_stats(r["stats"])
+                if r.get("skipped"):
+                    leginfo.append({"leg": leg.name, "skipped": r["skipped"]})
+                    continue
                 leginfo.append({"leg": leg.name, "engine": leg.engine, "race": leg.race, "instrumented": bool(leg.instrument),
+                                "goarch": leg.goarch, "wrapper": leg.wrap, "shard_env": leg.shard_env or None,
                                 "shards": (leg.shards[0] if tier == "quick" else leg.shards[1]) if not leg.fuzz else NCPU,
                                 "evaluations": m["evaluations"], "distinct_nontrivial": m["distinct"], "wall_s": round(r["wall"], 2)})
                 log("  leg %-14s evals=%-9d distinct-nontrivial=%-8d wall=%.1fs%s" % (
